@@ -159,7 +159,11 @@ def decide(pid, prop, tier, seed, results, undecided, t0, load_expect, findings)
     if need_oracles and oracles.PROP_ORACLES.get(pid):
         try:
             trust, bounded = oracles.run(oracles.PROP_ORACLES[pid], deep=(tier == 'thorough'))
-            fails = [b for b in bounded if b['status'] == 'FAIL']
+            # an aborted oracle process is a panic that nothing could catch: a violation of C13 (no operation panics), undecided for the others
+            fails = [b for b in bounded if b['status'] == 'FAIL' or (b['status'] == 'ABORT' and pid == 'C13')]
+            for b in bounded:
+                if b['status'] == 'ABORT' and pid != 'C13':
+                    undec.append(('bounded:' + b['check'], b['detail']))
             if trust and fails:
                 oracle_fail = fails[0]
         except Exception as e:  # the bounded search never turns a pass into a failure by crashing
